@@ -403,3 +403,10 @@ def r16_6(ctx):
             if isinstance(n, ast.Call) and isinstance(n.func, ast.Attribute) and n.func.attr in ("move_to_end", "sort", "reverse") and isinstance(n.func.value, ast.Attribute) and n.func.value.attr in lists:
                 rebinds.append(f"ILOpsHolder.{m}:{n.lineno} {U(n)[:50]}")
     ctx.check("the holder's operand lists keep their insertion order", not rebinds, "entries are added, removed or cleared; the lists are never re-bound or re-ordered", "; ".join(rebinds[:2]) or "ok", "rzilcompiler/Transformer/ILOpsHolder.py")
+
+
+@rule("R16.7", "C16", "the block layout prints the operand lists in registration order, which is dependency order only when the lists start empty: every list a transform fills is emptied by reset() (a stale entry keeps its old slot and is printed before what it depends on)", min_instances=12)
+def r16_7(ctx):
+    from .c14 import r14_1
+
+    r14_1(ctx)
